@@ -185,6 +185,15 @@ theorem disk_put_tie (s : State) (k : Key) (v : Val) (short : Bool) :
   | some old => exact ⟨rfl, rfl⟩
   | none => rfl
 
+/-- the disk cleanup task adjusts the cache's own counters, per expired entry as `dropIfExpired` does -/
+theorem disk_cleanup_tie (s : State) (k : Key) (e : DEntry) (h : lookup k s.index = some e) (hs : e.short = true) :
+    CacheSrc.disk_cleanup_shares = [true, true] ∧
+    ((Disk.dropIfExpired s k).count, (Disk.dropIfExpired s k).bytes) = CacheSrc.disk_cleanup_removed s.count s.bytes 1 e.size := by
+  refine ⟨rfl, ?_⟩
+  unfold Disk.dropIfExpired CacheSrc.disk_cleanup_removed
+  rw [h]; dsimp only; rw [if_pos hs]
+  rfl
+
 theorem disk_size_tie (s : State) : size s = CacheSrc.disk_size s.count s.files.length := rfl
 
 theorem disk_validate_tie (mf : Nat) (mb : Option Nat) (cz sz sub : Bool) (lv : Nat) :
